@@ -673,6 +673,53 @@ META = {
                   change='applying a choice that is not currently active is silently skipped',
                   needs='a nested supplementary choice whose mapping is registered before its parent\'s',
                   strengthened=None),
+    # ---- ninth round ----
+    'C02-i': dict(breaks='C02', file='adsg_core/graph/incompatibility.py (get_mod_nodes_remove_incompatibilities)',
+                  change='the orphan test for the infeasibility marker counts any in-edge, also the marker edge itself',
+                  needs='an infeasible partial instance (necessary conflict, name order A < T) and ANOTHER choice taken '
+                        'afterwards: the marker is removed and the instance reported feasible and final',
+                  strengthened='C02 now also descends from infeasible partial instances (as C06 did): a feasible '
+                               'descendant below a partial assignment no admissible architecture extends is a violation'),
+    'C06-i': dict(breaks='C06 (encoder level: C04)', file='adsg_core/optimization/hierarchy/complete.py (_eliminate_feedback_incompatibility)',
+                  change='the symmetry guard only checks that removals in one direction are mirrored',
+                  needs='two mutually coupled choices with an extra one-directional removal (an option incompatible with '
+                        'a node every option of a choice NESTED below an option of the other choice derives), choice '
+                        'order; complete encoder only -- the graph-level API is unaffected',
+                  strengthened='nested variant of the necessary-conflict class; C04 catches it. C06\'s own check works on '
+                               'the graph-level API (all choice orders), where this change is not observable'),
+    'C08-i': dict(breaks='C08', file='adsg_core/graph/adsg_nodes.py (ConnectorDegreeGroupingNode.update_deg)',
+                  change='early return when the members\' degree specs equal those of the previous update; the '
+                         'repeated_allowed flag is not part of the key and is not refreshed either',
+                  needs='a grouping node with two conditional members of equal degrees but different repeatability, '
+                        'sibling graphs, and a counterpart that allows parallel connections',
+                  strengthened='generator option p_grp_twin (C08 conn_grp profile): twin members'),
+    'C10-i': dict(breaks='C10', file='adsg_core/optimization/assign_enc/encoding.py (EagerEncoder.correct_vector_bounds)',
+                  change='only -1 is clamped to 0, other negative values pass',
+                  needs='a vector entry of -2 or lower given to a lazy / enumerating / pattern encoder',
+                  strengthened='C10 hostile vectors now include -2 / -3 entries (before: -1, n+3, over-long)'),
+    'C13-i': dict(breaks='C13', file='adsg_core/graph/choice_constraints.py (get_constraint_pre_removed_options)',
+                  change='UNORDERED_NOREPL pre-removal is applied when ANY (not all) constrained choice is permanent',
+                  needs='a mixed placement: one constrained choice permanent, the others conditional',
+                  strengthened=None),
+    'C14-i': dict(breaks='C14', file='adsg_core/optimization/hierarchy/fast.py (FastHierarchyAnalyzer.get_graph cache key)',
+                  change='the intermediate-graph cache is keyed on the prefix of taken options up to the current choice',
+                  needs='a choice with a lower vector index that becomes active after one with a higher index, two '
+                        'vectors differing only in the later one, decoded on one analyzer',
+                  strengthened=None),
+    'C18-i': dict(breaks='C18 (decode level: C03)', file='adsg_core/optimization/graph_processor.py (get_graph graph cache key)',
+                  change='prev_values holds the selection values and only the immediately preceding connection choice '
+                         '(same mechanism as C03-a, found independently)',
+                  needs='three connection choices active together, a processor that has decoded, pickled and restored',
+                  strengthened='C18 phase 2 decodes on the restored processor and on fresh processors built from the '
+                               'description in the loading process; class "three simple connection choices" on fixed '
+                               'case indices (the generic conn3 class is mostly infeasible as a whole); C03 caught it '
+                               'from the start'),
+    'C19-i': dict(breaks='C19', file='adsg_core/optimization/assign_enc/lazy/imputation/first.py (LazyFirstImputer._impute)',
+                  change='the "nothing valid found" sentinel is written to the memo before the search loop',
+                  needs='a first-valid search longer than the time limit on a manager that outlives the call; later '
+                        'imputations return the sentinel',
+                  strengthened='C19 library class "imputer": a 7x3 lazy manager per registered imputer, the same request '
+                               'under a limit of a fifth of its undisturbed duration and then without a limit'),
 }
 
 
